@@ -261,6 +261,13 @@ def rule_limits(ck):
         parts = q.dotted(loop.iter)
         if parts is None:
             raise AnalysisError("C30.limits: parts iterable is not a variable")
+        # the quantity that is counted must be the real number of pieces: an unbounded split of the body
+        from ..x_resolve import unique_def
+        pdef = unique_def(fi, parts)
+        if not (isinstance(pdef, ast.Call) and isinstance(pdef.func, ast.Attribute) and pdef.func.attr in ("split", "rsplit")):
+            raise AnalysisError("C30.limits: the collection of parts (%s) is not produced by a split of the body (unknown idiom)" % parts)
+        n += 1
+        ck.ob("C30.limits", fi, pdef, len(pdef.args) == 1 and not pdef.keywords, "the parts that are counted against %s.max_parts come from an unbounded split: with a maxsplit the count is capped and the limit can never trigger (surplus parts are swallowed into the last value)" % cfgp)
         is_cnt = lambda e: isinstance(e, ast.Call) and q.is_call(e, "len") and len(e.args) == 1 and q.dotted(e.args[0]) == parts
         ok2 = any(_cmp_bound(t, pol, is_cnt, limit("max_parts")) for t, pol in facts[nd.id] if not t.startswith("@"))
         n += 1
@@ -427,6 +434,8 @@ def x_root(e):
 
 
 def run(ck):
+    from ..x_resolve import install_prepared
+    install_prepared(ck, __file__)
     ck.rule("C30.only-input-error", "parse_body_arguments: fallible operations only inside try/except Exception -> raise HTTPInputError; every other raise is HTTPInputError")
     ck.rule("C30.limits", "parse_multipart_form_data: len(parts) <= config.max_parts dominates the part loop; eoh <= config.max_part_header_size dominates HTTPHeaders.parse of the part")
     ck.rule("C30.enabled", "config.enabled dominates every use of the body in parse_multipart_form_data")
@@ -496,6 +505,8 @@ def _hoist_out_of_try(root):
 
 
 MUTANTS = [
+    ("seeded C30-adv3: parts split with maxsplit = config.max_parts - 1 (the count can never exceed the limit)", _h(PMF, replace_expr(lambda n: isinstance(n, ast.Call) and q.call_attr(n) == "split" and "boundary" in _src(n), lambda n: ast.Call(func=n.func, args=n.args + [parse_expr("config.max_parts - 1")], keywords=[]))), ("C30.limits", "C30.byte-exact")),
+    ("limits: parts split with a hard-coded maxsplit=1000", _h(PMF, replace_expr(lambda n: isinstance(n, ast.Call) and q.call_attr(n) == "split" and "boundary" in _src(n), lambda n: ast.Call(func=n.func, args=n.args, keywords=[ast.keyword(arg="maxsplit", value=ast.Constant(value=1000))]))), ("C30.limits", "C30.byte-exact")),
     ("seeded C30-adv1: value = part[eoh + 4:].rstrip(b'\\r\\n') (trailing CR/LF of the content lost)", _h(PMF, replace_expr(lambda n: isinstance(n, ast.Subscript) and isinstance(n.slice, ast.Slice) and "eoh + 4" in _src(n), lambda n: parse_expr("part[eoh + 4:].rstrip(b'\\r\\n')"))), "C30.byte-exact"),
     ("byte-exact: header/body separator searched from the right (rfind): content containing a blank line is cut", _h(PMF, replace_expr(lambda n: isinstance(n, ast.Attribute) and n.attr == "find" and "part" in _src(n), lambda n: ast.Attribute(value=n.value, attr="rfind", ctx=ast.Load()))), "C30.byte-exact"),
     ("byte-exact: content starts 2 bytes after the separator position (eoh + 2)", _h(PMF, replace_expr(lambda n: isinstance(n, ast.Constant) and n.value == 4, lambda n: ast.Constant(value=2))), "C30.byte-exact"),
